@@ -18,6 +18,23 @@ thread_local! {
     /// runs would hide nothing here because only counters are kept, never addresses.
     static LEDGER: RefCell<BTreeMap<u64, (u32, u32)>> = const { RefCell::new(BTreeMap::new()) };
     static SERIAL: RefCell<u64> = const { RefCell::new(1) };
+    /// serial of the one tracked value whose `Drop` panics (0 = none): "drop behaviour" includes
+    /// a destructor that fails
+    static DROP_PANICS: std::cell::Cell<u64> = const { std::cell::Cell::new(0) };
+}
+
+fn maybe_panic_in_drop(serial: u64) {
+    let armed = DROP_PANICS.try_with(|a| {
+        if a.get() == serial && serial != 0 {
+            a.set(0);
+            true
+        } else {
+            false
+        }
+    });
+    if armed == Ok(true) && !std::thread::panicking() {
+        std::panic::panic_any("INJECTED-PANIC in Drop".to_string());
+    }
 }
 
 fn new_serial() -> u64 {
@@ -93,6 +110,7 @@ impl Default for D2 {
 impl Drop for D1 {
     fn drop(&mut self) {
         note_drop(self.serial);
+        maybe_panic_in_drop(self.serial);
     }
 }
 impl Drop for D2 {
@@ -350,6 +368,27 @@ fn step(h: &mut H, rng: &mut Rng) -> Option<(String, String)> {
         };
     }
     match op {
+        0 if t == 6 && h.model.contains_key(&(6, d)) && rng.chance(1, 2) => {
+            // replace a value whose destructor panics (the caller catches it): the new value must
+            // be in place all the same, the old one is gone
+            let serial = w!().get_mut_raw(rid(6, d)).map(|r| {
+                let r: &dyn Resource = r;
+                // SAFETY-free: go through the typed API
+                let _ = r;
+                0u64
+            });
+            let _ = serial;
+            let serial = with_cty!(6, T => w!().try_fetch_by_id::<T>(rid(6, d)).map(|g| g.serial()).unwrap_or(0));
+            DROP_PANICS.with(|a| a.set(serial));
+            let r = guarded(|| {
+                w!().insert_by_id(rid(6, d), D1::make(v));
+                "()".into()
+            });
+            DROP_PANICS.with(|a| a.set(0));
+            h.replaced = true;
+            h.model.insert((6, d), norm(6, v));
+            h.expect(format!("insert_by_id::<T6>(#{}, {}) over a value whose Drop panics", d, v), r, Err(PanicKind::Injected))
+        }
         0 | 1 => {
             // insert (dyn 0): replaces
             let r = with_cty!(t, T => guarded(|| { w!().insert(T::make(v)); "()".into() }));
